@@ -76,6 +76,8 @@ namespace {
 
       int declare(int s, const std::string& kind, int n, int t)
       {
+         // the last thing asked of the scope before it grows is a position one past its end (refused)
+         try { auto& el = scope(s).elements(); (void)did(*el.position(el.size())); } catch (...) { }     // (a handler region does not exist before its handler)
          const ipr::Decl* d = nullptr;
          auto& nm = *names.at(n);
          auto& ty = *types.at(t);
@@ -412,6 +414,13 @@ int main(int argc, char** argv)
    try {
       if (mode == "replay") return do_replay(argc > 2 ? std::atoi(argv[2]) : 3, argc > 3 ? std::atoi(argv[3]) : 2);
       if (mode == "record") return do_record(argc, argv);
+   }
+   catch (const std::logic_error& e) {
+      // the library throws logic errors, the harness run-time errors: one that arrives here escaped from a call of the library
+      // where the harness expected none -- recorded like a crash (a terminal event), not as a failure of the harness
+      std::cout.flush();
+      std::cerr << "exception of the library escaped: " << e.what() << "\n";
+      std::abort();
    }
    catch (const std::exception& e) {
       std::cout << "HARNESS-ERROR " << e.what() << "\n";
